@@ -467,7 +467,7 @@ def run(ctx):
     if ctx.quick:
         plans = [(2, CONFIGS_ALL, 1, 400), (2, post_cfgs, 0, 50), (3, [(False, False, True, False, True)], 0, 50)]
     else:
-        plans = [(2, CONFIGS_ALL, 3, 5000), (2, post_cfgs, 2, 2000), (3, default_cfgs, 2, 2000)]
+        plans = [(2, CONFIGS_ALL, 2, 2000), (2, post_cfgs, 1, 500), (3, default_cfgs, 1, 300)]
     for max_ops, cfgs, bound, cap in plans:
         for _, st in pmap(_shard, [(max_ops, cfgs, bound, i, n, ctx.seed, cap) for i in range(n)]):
             ctx.merge(st)
